@@ -7,7 +7,10 @@ import os
 VERIF = os.path.dirname(os.path.dirname(os.path.abspath(__file__)))
 
 TECH = "bounded symbolic execution of the real Python code (proxy objects over z3 terms, DFS over branch " \
-       "decisions) + SMT (z3) discharge of every obligation; counterexamples replayed on the real code"
+       "decisions) + SMT (z3) discharge of every obligation; counterexamples replayed on the real code. Behind C " \
+       "boundaries (numpy dtypes, struct, HDF5, YAML) values are concrete representatives and the solver enumerates " \
+       "the configurations (which entry is unset/zero, which header flag is on, which history of operations): a " \
+       "bounded enumeration driven by the solver, stated as such per harness in the evidence"
 
 NOTE_COMMON = "Trusted: z3 5.1; the symx proxy engine and namespace shims (differentially self-tested against " \
               "plain-number runs of the same code on every run; every harness carries a canary that must be " \
